@@ -609,6 +609,69 @@ let tbl_cmd (args : string list) : string =
     Printf.sprintf "filter=%d/%s probes=%s" (List.length f) (fnv f) ans
   | _ -> "bad-command"
 
+(* ---------- C16: region maps (Codec/Regions.v) ---------- *)
+let rclass_name = function
+  | DataPayload -> "data_payload" | DataType -> "data_type" | DataCrc -> "data_crc"
+  | FilterPayload -> "filter_payload" | FilterType -> "filter_type" | FilterCrc -> "filter_crc"
+  | PartPayload -> "part_payload" | PartType -> "part_type" | PartCrc -> "part_crc"
+  | TopPayload -> "top_payload" | TopType -> "top_type" | TopCrc -> "top_crc"
+  | MetaPayload -> "meta_payload" | MetaType -> "meta_type" | MetaCrc -> "meta_crc"
+  | FooterFormat -> "footer_format" | FooterCksum -> "footer_cksum" | FooterHandles -> "footer_handles"
+  | FooterPadding -> "footer_padding" | FooterMagic -> "footer_magic"
+  | RecCrc -> "rec_crc" | RecLen -> "rec_len" | RecType -> "rec_type" | RecPayload -> "rec_payload"
+  | WalPadding -> "padding" | WalTail -> "tail"
+  | HdrMagic -> "hdr_magic" | HdrVersion -> "hdr_version" | HdrFileId -> "hdr_fileid" | HdrCreated -> "hdr_created"
+  | HdrMaxSize -> "hdr_maxsize" | HdrCompression -> "hdr_compression" | HdrReserved -> "hdr_reserved"
+  | EntKlen -> "ent_klen" | EntVlen -> "ent_vlen" | EntKey -> "ent_key" | EntValue -> "ent_value" | EntCrc -> "ent_crc"
+  | VlogTail -> "tail"
+let show_regions (rs : region list) : string =
+  let total = List.fold_left (fun a r -> max a (int_of_nat r.r_off + int_of_nat r.r_len)) 0 rs in
+  Printf.sprintf "total=%d regions=%s" total
+    (if rs = [] then "-" else String.concat "," (List.map (fun r -> Printf.sprintf "%d:%d:%s" (int_of_nat r.r_off) (int_of_nat r.r_len) (rclass_name r.r_cls)) rs))
+let rg_cmd (args : string list) : string =
+  let nats s = if s = "-" then [] else List.map (fun x -> nat_of_int (int_of_string x)) (String.split_on_char ',' s) in
+  let kv s = match String.index_opt s '=' with Some i -> String.sub s (i + 1) (String.length s - i - 1) | None -> failwith "bad field" in
+  match args with
+  | ["params"] ->
+    Printf.sprintf "BLOCK_COMPRESS_LEN=%d BLOCK_CKSUM_LEN=%d TABLE_FULL_FOOTER_LENGTH=%d footer0=%s VLOG_HEADER_SIZE=%d VALUE_POINTER_SIZE=%d"
+      (int_of_n tBL_BLOCK_COMPRESS_LEN) (int_of_n tBL_BLOCK_CKSUM_LEN) (int_of_n tBL_FULL_FOOTER_LENGTH) (hex_of_bytes footer_zero)
+      (int_of_n vLOG_HEADER_SIZE) (int_of_n vLOG_VALUE_POINTER_SIZE)
+  | ["table"; data; filter; parts; top; meta] ->
+    let d = { td_data = nats (kv data); td_filter = (match kv filter with "-" -> None | x -> Some (nat_of_int (int_of_string x)));
+              td_parts = nats (kv parts); td_top = nat_of_int (int_of_string (kv top)); td_meta = nat_of_int (int_of_string (kv meta)) } in
+    let rs = table_regions d in
+    let s = show_regions rs in
+    if int_of_nat (table_len d) <> (List.fold_left (fun a r -> max a (int_of_nat r.r_off + int_of_nat r.r_len)) 0 rs) then "error:table_len" else s
+  | ["wal"; hex] -> show_regions (wal_regions wB (bytes_of_hex hex))
+  | ["walends"; hex] ->
+    let e = wal_rec_ends O (wal_descr wB (bytes_of_hex hex)) in
+    if e = [] then "-" else String.concat "," (List.map (fun x -> string_of_int (int_of_nat x)) e)
+  | ["vlog"; hex] -> show_regions (vlog_regions (bytes_of_hex hex))
+  | ["file"; id; hex] -> Hashtbl.replace files ("rg:" ^ id) (bytes_of_hex hex); "ok"
+  (* read_table_block of the model (real CRC-32, mask, little endian) on the stored file, optionally with one byte altered;
+     snappy payloads are not decompressed (identity): the answer says whether the block verifies *)
+  | "readblock" :: id :: o :: n :: alt ->
+    let f = Hashtbl.find files ("rg:" ^ id) in
+    let f = (match alt with [x; v] -> alter f (nat_of_int (int_of_string x)) (n_of_int (int_of_string v)) | _ -> f) in
+    (match tbl_read_block (fun p -> Some p) f (nat_of_int (int_of_string o)) (nat_of_int (int_of_string n)) with
+     | Some b -> Printf.sprintf "some:%d:%s" (List.length b) (fnv b)
+     | None -> "none")
+  | "footer" :: id :: alt ->
+    let f = Hashtbl.find files ("rg:" ^ id) in
+    let f = (match alt with [x; v] -> alter f (nat_of_int (int_of_string x)) (n_of_int (int_of_string v)) | _ -> f) in
+    (match footer_check f with Some h -> "some:" ^ hex_of_bytes h | None -> "none")
+  | "vlogget" :: id :: o :: k :: v :: crc :: alt ->
+    let f = Hashtbl.find files ("rg:" ^ id) in
+    let f = (match alt with [x; w] -> alter f (nat_of_int (int_of_string x)) (n_of_int (int_of_string w)) | _ -> f) in
+    let c = int_of_string crc in
+    let p = { vp_off = nat_of_int (int_of_string o); vp_k = nat_of_int (int_of_string k); vp_v = nat_of_int (int_of_string v);
+              vp_crc = List.map n_of_int [(c lsr 24) land 255; (c lsr 16) land 255; (c lsr 8) land 255; c land 255] } in
+    (match vlog_get_full f p with
+     | Some b -> Printf.sprintf "some:%d:%s" (List.length b) (fnv b)
+     | None -> "none")
+  | ["paramsok"] -> if c16_params_ok then "true" else "false"
+  | _ -> "bad-command"
+
 let () =
   try
     while true do
@@ -627,6 +690,7 @@ let () =
             | "cs" :: rest -> cs_cmd rest
             | "ri" :: rest -> ri_cmd rest
             | "lk" :: rest -> lk_cmd rest
+            | "rg" :: rest -> rg_cmd rest
             | _ -> "bad-command"
           with
           | Not_found -> "error:not-found"
